@@ -38,6 +38,20 @@ type ChordSpec struct {
 	Bass   *theory.Interval
 	// Semis overrides the dictionary lookup (user dictionaries, C16)
 	Semis []int
+	// AltDeg / AltBass write a diminished perfect-class interval with a single b
+	// ("b5" instead of "bb5"), the other spelling the notation admits.
+	AltDeg, AltBass bool
+}
+
+// YAMLNotation is the interval notation used in instances YAML.
+func YAMLNotation(i theory.Interval, alt bool) string {
+	if alt && i.Q == theory.Diminished {
+		s := (i.N-1)%7 + 1
+		if s == 1 || s == 4 || s == 5 {
+			return "b" + strconv.Itoa(i.N)
+		}
+	}
+	return i.Notation()
 }
 
 // Instance is a chord or a rest with its settings.
@@ -134,10 +148,10 @@ func (p Piece) YAML(st YAMLStyle) []byte {
 		}
 		if c := in.Chord; c != nil {
 			item("chord:")
-			b.WriteString("    degree: " + jstr(c.Deg.Notation()) + "\n")
+			b.WriteString("    degree: " + jstr(YAMLNotation(c.Deg, c.AltDeg)) + "\n")
 			b.WriteString("    name: " + jstr(c.Symbol) + "\n")
 			if c.Bass != nil {
-				b.WriteString("    base: " + jstr(c.Bass.Notation()) + "\n")
+				b.WriteString("    base: " + jstr(YAMLNotation(*c.Bass, c.AltBass)) + "\n")
 			}
 		}
 		val := func(f Frac) string {
@@ -198,9 +212,9 @@ func (p Piece) jsonDoc() []byte {
 	for _, in := range p.Inst {
 		m := map[string]any{}
 		if c := in.Chord; c != nil {
-			cm := map[string]any{"degree": c.Deg.Notation(), "name": c.Symbol}
+			cm := map[string]any{"degree": YAMLNotation(c.Deg, c.AltDeg), "name": c.Symbol}
 			if c.Bass != nil {
-				cm["base"] = c.Bass.Notation()
+				cm["base"] = YAMLNotation(*c.Bass, c.AltBass)
 			}
 			m["chord"] = cm
 		}
@@ -786,6 +800,8 @@ func RandPiece(r *rand.Rand, o GenOpts) Piece {
 				}
 				c.Bass = &b
 			}
+			c.AltDeg = r.Intn(2) == 0
+			c.AltBass = r.Intn(2) == 0
 			in.Chord = c
 		}
 		if o.Halfway && r.Intn(8) == 0 {
